@@ -32,7 +32,9 @@ type MW struct {
 	Fees    map[string][]uint64 // fee set to draw rotations from
 	step    int
 	// NoAmbiguity: honest operations must succeed (fault-free sub-profile)
-	Strict bool
+	Strict    bool
+	NextPlans []*FaultPlan // fault plans for the next step's episode
+	Faulted   bool         // a storage error was injected: oracles that need exact knowledge relax
 	// Locks: honest swaps sometimes produce P2PK/HTLC locked proofs, spent later with a witness
 	Locks          bool
 	MPP            bool
@@ -103,7 +105,7 @@ func (m *MW) StepFund() {
 	m.rc.Op("fund")
 	ks := m.W.ActiveKeyset(mint)
 	name := m.name("fund")
-	m.rc.S.BeginEpisode()
+	m.begin()
 	m.rc.S.Run1(name, m.W.Ext, func() {
 		q, _ := m.User.ReqMintQuote(mint, amount, false)
 		if q == nil {
@@ -143,7 +145,7 @@ func (m *MW) StepSwap() {
 		lockKind = 1 + m.T.Choose("swap.lockkind", 2)
 	}
 	name := m.name("swap")
-	m.rc.S.BeginEpisode()
+	m.begin()
 	m.rc.S.Run1(name, m.W.Ext, func() {
 		if sum <= fee {
 			return
@@ -186,6 +188,12 @@ func (m *MW) StepSwap() {
 	})
 }
 
+// begin opens the episode of a step; fault plans queued in NextPlans apply to this step only.
+func (m *MW) begin() {
+	m.rc.S.BeginEpisode(m.NextPlans...)
+	m.NextPlans = nil
+}
+
 func hasWitness(ps []*HProof) bool {
 	for _, p := range ps {
 		if p.Witness != "" {
@@ -225,7 +233,7 @@ func (m *MW) StepMelt() {
 	m.rc.Op("melt")
 	inv := m.W.LN.NewExternalInvoice(msat)
 	name := m.name("melt")
-	m.rc.S.BeginEpisode()
+	m.begin()
 	m.rc.S.Run1(name, m.W.Ext, func() {
 		var mppMsat uint64
 		if mpp && msat > 2000 {
@@ -355,7 +363,7 @@ func (m *MW) StepResolve() {
 	m.rc.Op("resolve")
 	m.W.LN.ResolveInflight(pm.Key, succeed)
 	name := m.name("resolve")
-	m.rc.S.BeginEpisode()
+	m.begin()
 	m.rc.S.Run1(name, m.W.Ext, func() {
 		switch via {
 		case 0:
@@ -448,7 +456,7 @@ func (m *MW) StepReplay() {
 	if k := m.T.Choose("replay.dberr", 6); k >= 3 {
 		m.rc.S.BeginEpisode(&FaultPlan{Node: mint, Kind: "db_error", SeamKind: "db", Pos: k - 2})
 	} else {
-		m.rc.S.BeginEpisode()
+		m.begin()
 	}
 	m.rc.S.Run1(name, m.W.Ext, func() {
 		a := m.Atk
@@ -502,7 +510,7 @@ func (m *MW) StepDup() {
 	m.rc.Op("dup")
 	ks := m.W.ActiveKeyset(mint)
 	fee := m.feeFor(mint, []*HProof{p, p})
-	m.rc.S.BeginEpisode()
+	m.begin()
 	m.rc.S.Run1(m.name("dup"), m.W.Ext, func() {
 		a, b := p.J(), p.J()
 		switch mode {
@@ -543,7 +551,7 @@ func (m *MW) checkStillSpendable(mint string, ins []*HProof, why string) {
 	if SumH(ins) <= fee {
 		return
 	}
-	m.rc.S.BeginEpisode()
+	m.begin()
 	m.rc.S.Run1(m.name("still"), m.W.Ext, func() {
 		outs := m.W.NewOutputs(Split(SumH(ins)-fee), ks.ID)
 		_, r := m.User.Swap(mint, ins, outs)
@@ -577,7 +585,7 @@ func (m *MW) StepRace() {
 	}
 	won := make([]bool, n)
 	locked := make([]*PendingMelt, n)
-	m.rc.S.BeginEpisode()
+	m.begin()
 	for i := 0; i < n; i++ {
 		i := i
 		name := fmt.Sprintf("%s.%d", m.name("race"), i)
@@ -687,7 +695,7 @@ func (m *MW) StepCheckstate() {
 		}
 	}
 	m.rc.Op("checkstate")
-	m.rc.S.BeginEpisode()
+	m.begin()
 	m.rc.S.Run1(m.name("cs"), m.W.Ext, func() {
 		r := m.User.CheckState(mint, Ys)
 		if r.OK() {
@@ -778,7 +786,7 @@ func (m *MW) StepRestore() {
 		outs = append(outs, o)
 	}
 	m.rc.Op("restore")
-	m.rc.S.BeginEpisode()
+	m.begin()
 	m.rc.S.Run1(m.name("rs"), m.W.Ext, func() {
 		m.User.Restore(mint, outs)
 	})
@@ -827,7 +835,7 @@ func (m *MW) StepRotateRuntime() {
 	}
 	m.rc.Op(fmt.Sprintf("rotate-runtime(%d)", fee))
 	node := m.W.Mints[mint]
-	m.rc.S.BeginEpisode()
+	m.begin()
 	m.rc.S.Run1(m.name("rotate"), node.Inc, func() {
 		node.M.RotateKeyset(uint(fee))
 	})
@@ -1012,7 +1020,7 @@ func (m *MW) StepAdversarial() {
 	m.rc.Op(fmt.Sprintf("adversarial%d", mode))
 	ks := m.W.ActiveKeyset(mint)
 	sum := SumH(ins)
-	m.rc.S.BeginEpisode()
+	m.begin()
 	m.rc.S.Run1(m.name("adv"), m.W.Ext, func() {
 		a := m.Atk
 		var r *Resp
@@ -1105,7 +1113,7 @@ func (m *MW) StepInternal() {
 	amount := uint64(1 + m.T.Choose("int.amt", int(purse/4)))
 	m.rc.Op("internal")
 	ks := m.W.ActiveKeyset(mint)
-	m.rc.S.BeginEpisode()
+	m.begin()
 	m.rc.S.Run1(m.name("int"), m.W.Ext, func() {
 		q, _ := m.User.ReqMintQuote(mint, amount, false)
 		if q == nil {
@@ -1156,7 +1164,7 @@ func (m *MW) StepRotateRuntimeConcurrent() {
 	m.rc.Op(fmt.Sprintf("rotate-runtime(%d)+traffic", fee))
 	node := m.W.Mints[mint]
 	ks := m.W.ActiveKeyset(mint)
-	m.rc.S.BeginEpisode()
+	m.begin()
 	m.rc.S.Go(m.name("rotate"), node.Inc, true, func() {
 		node.M.RotateKeyset(uint(fee))
 	})
@@ -1211,7 +1219,7 @@ func (m *MW) StepConcurrentQueries() {
 	}
 	var allOuts [][]*HOutput
 	won := false
-	m.rc.S.BeginEpisode()
+	m.begin()
 	for i := 0; i < nSwap; i++ {
 		outs := m.W.NewOutputs(Split(SumH(ins)-fee), ks.ID)
 		allOuts = append(allOuts, outs)
